@@ -66,6 +66,10 @@ def nf(v):
             if any(x == ("num", 0) for x in items):
                 return ("num", 0)
             items = [x for x in items if x != ("num", 1)]
+            # (-1)*(-1) = 1, exactly, wherever the two factors stand
+            while sum(1 for x in items if x == ("num", -1)) >= 2:
+                items.remove(("num", -1))
+                items.remove(("num", -1))
             if not items:
                 return ("num", 1)
         if len(items) == 1:
@@ -347,3 +351,49 @@ def judge_operator(model, cls, name, node, order, world=None, reflected=None):
             if got != want:
                 wit.append(f"{label}: builds {got}, the operator means {want}")
     return wit, n
+
+
+def judge_negation_helper(model, module, fn, world=None):
+    """A module-level helper `h(e)` that stands where the parser (or another
+    builder) wrote `-e`: interpreted on a variable, sums, products -- among
+    them products that start with the factor -1 and have one, two and three
+    further factors --, and numbers.  -> (is_negation, witnesses): whether
+    some operand comes back negated at all (the helper is meant as negation),
+    and the operands for which what comes back is not `-e` in value normal
+    form."""
+    w = world or World(model)
+    a, b, c = _var("a"), _var("b"), _var("c")
+    operands = [a, _node("Sum", a, b), _node("Product", a, b),
+                _node("Product", -1, a), _node("Product", -1, a, b),
+                _node("Product", -1, a, b, c), _node("Product", 2, a),
+                _node("Product", a, -1), 2, -1, 0.5, 0]
+    glob = module_env(module.tree, dict(w.glob))
+    wit, hits = [], 0
+    for e in operands:
+        it = w.interp()
+        it.globals = dict(glob)
+        try:
+            res = it.call_function(fn, [e], dict(glob))
+        except Raised as r:
+            wit.append(f"{fn.name}({nf(e)}) raises at line "
+                       f"{getattr(r.node, 'lineno', '?')}")
+            continue
+        want = nf(_neg(e))
+        if nf(res) == want:
+            hits += 1
+        else:
+            wit.append(f"{fn.name}({_show(e)}) gives {_show(res)}, and "
+                       f"-({_show(e)}) is {_show(_neg(e))}")
+    return hits > 0, wit
+
+
+def _show(v):
+    if _num(v):
+        return repr(v)
+    if isinstance(v, Obj):
+        if v.cls == "Variable":
+            return v.fields["name"]
+        if v.cls in ("Sum", "Product"):
+            op = " + " if v.cls == "Sum" else "*"
+            return "(" + op.join(_show(x) for x in v.fields["children"]) + ")"
+    return repr(v)
